@@ -71,6 +71,10 @@ class Contract:
     # obligation of the body (natively f calls the function itself, so the clause is a tautology there).
     # Only for int / bool valued names (no object identity is asserted).
     defines: list = dataclasses.field(default_factory=list)
+    # list parameters the function mutates in place (passed by reference): in ensures the parameter name
+    # denotes the list after the call, old(name) the list before; at a call site the argument must be a
+    # local list the caller itself may mutate
+    mutates: list = dataclasses.field(default_factory=list)
 
     @property
     def key(self):
@@ -92,6 +96,7 @@ class Lemma:
     terms: list = dataclasses.field(default_factory=list)  # expressions whose terms are introduced (t == fresh): triggers unfolding, adds no fact
     step: int = -1  # induction hypothesis at induct + step ...
     decreases: str | None = None  # ... admissible because this measure is >= 0 and smaller there
+    generalize: list = dataclasses.field(default_factory=list)  # variables the induction hypothesis is universally quantified over
 
 
 def cls(name, file, fields, mutable=(), bases=()):
@@ -142,6 +147,7 @@ def contract(
     virtual_ensures=(),
     may_raise=None,
     defines=(),
+    mutates=(),
 ):
     if cases is None:
         cases = [dict(when="True", returns=returns, ensures=list(ensures))]
@@ -170,15 +176,16 @@ def contract(
         virtual_ensures=list(virtual_ensures),
         may_raise=dict(may_raise or {}),
         defines=list(defines),
+        mutates=list(mutates),
     )
     CONTRACTS[qualname] = c
     return c
 
 
-def lemma(name, vars, requires=(), ensures=(), props=(), induct=None, hints=(), triggers=(), uses=(), step=-1, decreases=None, calls=(), terms=()):
+def lemma(name, vars, requires=(), ensures=(), props=(), induct=None, hints=(), triggers=(), uses=(), step=-1, decreases=None, calls=(), terms=(), generalize=()):
     if hints:
         raise ValueError("lemma hints are assumed facts and are not accepted; use calls= (proved lemmas) or terms=")
-    LEMMAS[name] = Lemma(name, dict(vars), list(requires), list(ensures), list(props), induct, [], list(triggers), list(uses), list(calls), list(terms), step, decreases)
+    LEMMAS[name] = Lemma(name, dict(vars), list(requires), list(ensures), list(props), induct, [], list(triggers), list(uses), list(calls), list(terms), step, decreases, list(generalize))
 
 
 def reset():
